@@ -11,6 +11,7 @@ def main(argv):
     # multi-source operators: external cut at every position; a source that ends synchronously inside its own subscription (also with a
     # panicking teardown) must not make the operator lose the subscriptions it already holds
     parts_multi.run(rep, PID, rep.tier == 'thorough')
+    parts_multi.run_ho(rep, PID, rep.tier == 'thorough')
     rep.cov['rule'] = common.PIPE_RULE + '; C14 looks at the source teardown counter in the very step in which an operator terminated the stream on a value (no further source event)'
     rep.cov['exhaustive'] = True
     rep.assumptions += ['bounded: scripts <= 3-4 notifications; chains <= 2 operators']
@@ -20,6 +21,6 @@ def main(argv):
 def replay(path):
     vlib.build_harness()
     import json
-    if json.load(open(path))['replay'].get('module') == 'MultiGen':
+    if json.load(open(path))['replay'].get('module') in ('MultiGen', 'HOGen'):
         return parts_multi.replay_case(PID, path)
     return pp.replay_case(PID, path)
